@@ -195,6 +195,16 @@ def answerW (E : WCurve) (isBls : Bool) (ws : List String) : String :=
     match parseNat? s, parseWPt p with
     | some s, some p => fmtRes (E.mulByConstant (s % E.r) p)
     | _, _ => "bad-op"
+  | ["mulc_raw", n, x, y] =>
+    -- `point_from_coordinates(x, y)` + `mul_by_constant(n, ·)`, honest prover
+    match parseNat? n, parseNat? x, parseNat? y with
+    | some n, some x, some y => fmtRes (E.mulConstRaw E.incAddHonest n x y)
+    | _, _, _ => "bad-op"
+  | ["mulc_forge", n, x, y] =>
+    -- the same circuit against the prover that exploits an `incomplete_add` with equal operands
+    match parseNat? n, parseNat? x, parseNat? y with
+    | some n, some x, some y => fmtRes (E.mulConstRaw E.incAddForge n x y)
+    | _, _, _ => "bad-op"
   | ["subgroup_check", p] =>
     if !isBls then "bad-op" else
     match parseWPt p with
